@@ -13,6 +13,15 @@ HOOKS = {
 NOT_APPLICABLE = {}
 
 CHECKS = {
+    "C01": {
+        "parts": [{"pkg": "seq", "test": "TestC01", "subs": ["history", "small-histories"]}],
+        "technique": "model-based stateful property testing (rapid) against an abstract Go slice + exhaustive enumeration of short histories",
+        "level_text": "Generated histories (constructor + 1..40 operations, five element types, index/slot/range arguments drawn by boundary class, fresh/empty/receiver-aliased operands) are executed on List and Array and compared after every call with an abstract slice: outcome class (returned/panicked), returned values, AsArray, size, emptiness, iteration. All one-operation histories (quick) and all two-operation histories of a narrowed space (thorough) over a 2-value alphabet on sizes 0..3 are enumerated. Bounded search, not proof.",
+        "level_note": "Trusts the harness model. Inverted in-range ranges and SetValues with an empty operand at a valid index may either panic or do nothing (the statement does not address them); panic payloads are not inspected; a hang watchdog of 60 s decides 'every call returns'.",
+        "rule": "history: random case = element type x {List,Array} x constructor x initial values (4-5 value alphabet with duplicates) x 1..40 operations; non-trivial = at least one structural mutation returned AND at least one call from a boundary class (zero/out-of-range index, slot past end, inverted or out-of-range range, empty or receiver-aliased operand). small-histories: every history of the enumerated space. distinct = distinct decoded cases (FNV-64).",
+        "assumptions": ["NaN elements are excluded (C07/C08 own NaN equality)", "Sort results are checked as ordered permutations; ShuffleValues as a permutation",
+                        "a call is judged 'never returns' after 60 s (calls normally take microseconds)"],
+    },
     "C13": {
         "parts": [{"pkg": "seq", "test": "TestC13", "subs": ["history", "words", "ctor-sizes"], "thorough_shards": 8}],
         "technique": "model-based stateful property testing (rapid) against a top-first slice model + exhaustive enumeration of push/pop words and constructor sizes",
